@@ -271,17 +271,11 @@ func relation(p string, a, b tree) string {
 		if _, ok := a[q]; ok {
 			return "under-current-file"
 		}
-		da, db := isDirIn(a, q), isDirIn(b, q)
-		switch {
-		case da && !db:
+		if isDirIn(a, q) && !isDirIn(b, q) {
 			return "in-removed-dir"
-		case db && !da:
-			return "in-added-dir"
-		case da && db:
-			return "in-kept-dir"
 		}
 	}
-	return "unrelated"
+	return "elsewhere"
 }
 
 func swapName(f file) string {
@@ -913,7 +907,9 @@ func (w *world) applyMod(m Mod) {
 		}
 		class = "staged-" + class
 	}
-	w.prior[p] = class
+	if w.prior[p] != "staged-add" { // a later edit of a staged new file keeps the class of its origin
+		w.prior[p] = class
+	}
 	w.nprior++
 	w.logf("mod %s %s: applied as %s", m.Kind, p, class)
 }
@@ -1304,7 +1300,7 @@ type Plan struct {
 	Fault    *simfs.Fault `json:"fault,omitempty"`
 }
 
-var opNames = []string{"checkout-branch", "checkout-hash", "checkout-create", "reset-hard", "checkout-create-at-head"}
+var opNames = []string{"co-branch", "co-hash", "co-create", "reset-hard", "co-newhead"}
 
 func genPlan(r *core.Rand, tier string) any {
 	p := &Plan{RepoSeed: r.Uint64() % 48, Repack: r.Bool(), TickMs: []int{0, 1, 1000}[r.Intn(3)], Gap: r.Intn(3)}
@@ -1404,7 +1400,7 @@ func execPlan(t *testing.T, pa any) core.Outcome {
 		q := *p
 		q.Fault, q.Git = nil, false
 		base := run(t, &q, nil)
-		cut := func(s string) string { return strings.Join(strings.SplitN(s, "|", 4)[:3], "|") } // C25|op|divergence
+		cut := func(s string) string { return strings.SplitN(s, "|", 4)[2] } // the divergence
 		if base.Signature != "" && cut(base.Signature) == cut(out.Signature) {
 			out.Signature = base.Signature
 			out.Message += " [the same divergence occurs without the fault]"
@@ -1419,17 +1415,17 @@ func faultWhere(d *simfs.Disk) string {
 			p := strings.TrimPrefix(op.Path, "/w/")
 			switch {
 			case !strings.HasPrefix(p, ".git"):
-				return "worktree"
+				return "wt"
 			case strings.HasPrefix(p, ".git/objects"):
-				return "objects"
+				return "obj"
 			case p == ".git/index":
-				return "index"
+				return "idx"
 			case p == ".git/HEAD", strings.HasPrefix(p, ".git/refs"), p == ".git/packed-refs":
 				return "refs"
 			case p == ".git/config":
-				return "config"
+				return "cfg"
 			}
-			return "gitdir"
+			return "git"
 		}
 	}
 	return "none"
@@ -1591,12 +1587,15 @@ func run(t *testing.T, p *Plan, observe func(d *simfs.Disk)) (out core.Outcome) 
 		if path != "" {
 			msg += fmt.Sprintf(" [path relation %s, prior state of the path: %s]", pc, prc)
 		}
+		sop := op
 		if fault != "none" {
-			// which path diverges after a swallowed I/O error is incidental
-			pc, prc = "any", "any"
+			// after a swallowed I/O error, which operation form was running and
+			// which path diverges are incidental: one signature per (divergence,
+			// operation class and place of the swallowed error)
+			sop, pc, prc = "any", "any", "any"
 		}
 		w.logf("DIVERGENCE %s: %s", div, msg)
-		divs = append(divs, divergence{fmt.Sprintf("C25|%s|%s|%s|%s|%s", op, div, pc, prc, fault),
+		divs = append(divs, divergence{fmt.Sprintf("C25|%s|%s|%s|%s|%s", sop, div, pc, prc, fault),
 			fmt.Sprintf("%s from commit #%d to #%d returned nil but %s (fault: %s)", op, from, to, msg, fault)})
 	}
 
@@ -1853,14 +1852,14 @@ func TestCheck(t *testing.T) {
 			"calls that return an error are not judged here (C29)", "POSIX name semantics only (no case-folding personality)"},
 		Real:    []string{"Worktree.Checkout (Force) / Worktree.Reset (HardReset)", "resetIndex, resetWorktreeToTree, checkoutChange, checkoutFile", "merkletrie filesystem/index noders", "storage/filesystem"},
 		Stub:    []string{"disk (simfs) with fault ordinals", "clock (simfs manual clock)"},
-		Runs:    map[string]int{"quick": 6000, "thorough": 80000},
+		Runs:    map[string]int{"quick": 4000, "thorough": 80000},
 		NewPlan: func() any { return &Plan{} },
 		Gen:     genPlan,
 		Expand:  expand,
 		Exec:    execPlan,
 		RequiredProbes: []string{"pair:file-dir-swap", "pair:file-symlink-swap", "pair:symlink-dir-swap", "pair:mode-only", "pair:case-variant", "pair:deep", "pair:submodule", "pair:plain", "pair:same",
 			"prior:clean", "prior:edit", "prior:staged-edit", "prior:chmod", "prior:delete", "prior:untracked", "prior:staged-add", "prior:rmcached", "prior:retype-link", "prior:retype-dir",
-			"outcome:checkout-branch:ok", "outcome:checkout-hash:ok", "outcome:checkout-create:ok", "outcome:reset-hard:ok", "fault-swallowed", "op-failed-after-fault",
-			"untracked-judged:in-removed-dir", "untracked-judged:unrelated", "not-judged:untracked-at-target-path"},
+			"outcome:co-branch:ok", "outcome:co-hash:ok", "outcome:co-create:ok", "outcome:reset-hard:ok", "fault-swallowed", "op-failed-after-fault",
+			"untracked-judged:in-removed-dir", "untracked-judged:elsewhere", "not-judged:untracked-at-target-path"},
 	})
 }
